@@ -48,6 +48,14 @@ def narrowings(f):
                 out.append(('an expression computed in float is widened to double', pp(y)[:100], y.get('loc')))
             if mm and mm.group(2).strip() == 'float' and mm.group(1).strip() in ('double', 'long double'):
                 out.append(('a double expression is cast to float', pp(y)[:100], y.get('loc')))
+        # a standard reduction accumulates in the type of its INITIAL VALUE: a float initial value over double elements rounds every partial sum to single precision
+        if y.get('k') == 'Call' and (y.get('fn') or '').split('<')[0] in ('std::accumulate', 'std::inner_product', 'std::reduce', 'std::transform_reduce') and y.get('args'):
+            fnq = y.get('fn') or ''
+            init_ = y['args'][3] if 'inner_product' in fnq and len(y['args']) >= 4 else y['args'][2] if len(y['args']) >= 3 else None
+            ti = (strip_casts(init_).get('t') or {}) if init_ is not None else {}
+            over_double = 'double' in fnq.split('>(')[0]
+            if ti.get('c') == 'fp' and ti.get('bits') == 32 and over_double:
+                out.append(('a reduction over double elements accumulates in float (the type of its initial value `%s`)' % pp(init_)[:20], pp(y)[:100], y.get('loc')))
     return out
 
 
